@@ -473,6 +473,12 @@ def main(argv=None):
             ],
             wall_s=round(wall, 2), violations=len(vio_lines),
         )
+        extra = getattr(mod, "extra_evidence", None)
+        if callable(extra):
+            try:
+                ev["coverage"]["extra"] = extra()
+            except Exception as e:  # informational only
+                ev["coverage"]["extra"] = {"error": repr(e)}
         os.makedirs(os.path.join(ROOT, "evidence"), exist_ok=True)
         json.dump(ev, open(os.path.join(ROOT, "evidence", prop + ".json"), "w"), indent=1)
     if not args.keep:
